@@ -1067,6 +1067,81 @@ class HistogramLayer(Family):
             yield case[:i] + case[i + 1:]
 
 
+class AttributeHelpers(Family):
+    """`StateAttributeLimitsHelper` / `StateAttributeHistogramHelper` of a real `HistogramViewerState`: a dictionary
+    keyed by the attribute.  Steps: switch the attribute, change the values of an attribute; after every step
+    the limits / bins are compared with those of a freshly constructed viewer state on the same attribute."""
+    name = "helper"
+    exhaustive = True
+    known_findings_uncounted = True     # the listed finding must not crowd out other failures of this family
+    budget_share = 0.4
+    max_jobs = 2
+    batch = 60
+
+    STEPS = ["x", "y", "z", "vx", "vy", "vz"]
+
+    def cases(self, tier, rng):
+        L = 3 if tier == "quick" else 4
+        for n in range(1, L + 1):
+            for seq in itertools.product(self.STEPS, repeat=n):
+                yield list(seq)
+
+    def reset(self):
+        B.clear_memo()
+        Registry().clear()
+
+    def run_impl(self, case):
+        from glue.viewers.histogram.state import HistogramViewerState, HistogramLayerState
+        d = Data(x=np.array([1.0, 2, 2, 3, 4, 6]), y=np.array([2.0, 2, 3, 5, 5, 7]), z=np.array([10.0, 20, 30, 40, 50, 60]), label="H")
+        dc = DataCollection([d])
+        names = ["x", "y", "z"]
+
+        def mk(att):
+            vs = HistogramViewerState()
+            ls = HistogramLayerState(layer=d, viewer_state=vs)
+            vs.layers.append(ls)
+            vs.x_att = att
+            return vs, ls
+
+        def out(vs):
+            return arr_atom(np.round(np.array([vs.x_min, vs.x_max, vs.hist_x_min, vs.hist_x_max, vs.hist_n_bin], dtype=float) * 1024))
+        vs, ls = mk(d.id["x"])
+        self._keep = [d, dc, vs, ls]
+        keys, outs, fresh = [], [], []
+
+        def request():
+            cur = vs.x_att
+            # the key the helpers use is the component id itself
+            assert cur in vs.x_lim_helper._cache and cur in vs.hist_helper._cache
+            keys.append(names.index(cur.label))
+            outs.append(out(vs))
+            f, fl = mk(cur)
+            self._keep.append((f, fl))
+            fresh.append(out(f))
+        request()
+        for p in case:
+            if p in names:
+                vs.x_att = d.id[p]
+            else:
+                n = p[1]
+                d.update_components({d.id[n]: np.asarray(d[n]) * 2 + 1})
+            request()
+        self._last = (keys, fresh)
+        return outs
+
+    def line(self, case, pyout):
+        n = len(case) + 1
+        ids, fresh = self._last if getattr(self, "_last", None) else ([0] * n, ["x"] * n)
+        return sx(["dict", [ids, fresh], pyout])
+
+    def signature(self, case, pyout, res):
+        return {"cache": "attribute-helper", "values": any(p.startswith("v") for p in case)}
+
+    def shrink(self, case):
+        for i in range(len(case)):
+            yield case[:i] + case[i + 1:]
+
+
 THEOREMS = ["C05.spec_always_fresh", "C05.fresh_iff_no_stale", "C05.fresh_of_cleanBelow", "C05.impl_fresh_partial",
             "C05.impl_fresh_unseen", "C05.impl_fresh_repaired", "C05.compute_statistic_fresh", "C05.keyed_cache_sound",
             "C05.keyed_cache_stale", "C05.repairedPolicy_clearsAll", "C05.pinnedPolicy_not_clearsAll",
@@ -1078,7 +1153,7 @@ PROP = Property(
     id="C05",
     title="Results always reflect the current data, regions and links - never a stale cache",
     theorems=THEOREMS,
-    families=[Mutations(), EditSubset(), Links(), RandomHistories(), FloodFill(), HistogramLayer()],
+    families=[Mutations(), EditSubset(), Links(), RandomHistories(), FloodFill(), HistogramLayer(), AttributeHelpers()],
     trusted_base=["CPython dict keys (hash + ==) of the memo tables; elementary masks are measured on fresh copies of "
                   "never-evaluated probe objects in every epoch (their internals belong to C04/C08/C09/C11); numpy Boolean operators"],
     assumptions=["one subset group (one grouped subset per dataset); no key joins; list mutation of MultiOrState.states and "
